@@ -55,8 +55,10 @@ impl Grid for BaseGrid {
             (min, max) = (max, min)
         }
 
+        // (plain comparisons: `clamp` panics for a NaN margin, and for a negative
+        // margin shrinking the grid to nothing. In both cases nothing is contained)
         let grace = margin * self.dlat.abs();
-        if position[1] != position[1].clamp(min - grace, max + grace) {
+        if !(position[1] >= min - grace && position[1] <= max + grace) {
             return false;
         }
 
@@ -69,7 +71,7 @@ impl Grid for BaseGrid {
         }
 
         let grace = margin * self.dlon.abs();
-        if position[0] != position[0].clamp(min - grace, max + grace) {
+        if !(position[0] >= min - grace && position[0] <= max + grace) {
             return false;
         }
 
@@ -185,7 +187,12 @@ impl BaseGrid {
 
         let grid = Vec::from(grid.unwrap_or(&[]));
 
-        if elements == 0 || (offset == 0 && elements > grid.len()) || bands < 1 {
+        // The grid must fit into the vector given, also when it starts at an offset:
+        // `at` indexes the vector from `offset` to `offset + elements`
+        let fits = offset
+            .checked_add(elements)
+            .is_some_and(|end| end <= grid.len());
+        if elements == 0 || !fits || bands < 1 {
             return Err(Error::General("Malformed grid"));
         }
 
